@@ -163,28 +163,36 @@ func makeConcGroup(id int) *concGroup {
 	grp.Tasks = append(grp.Tasks,
 		concTask{Op: "ser", Want: hx(wp.Serialize82()) + hx(wpub.Serialize82()) + hx([]byte(wp.String())) + hx([]byte(wpub.String()))},
 		concTask{Op: "ident", Want: hx(wpub.Serialize82()) + hx(fp[:]) + hx(ident[:]) + hx(fp[:]) + hx(ident[:])})
-	// bip39 beside the derivations, on a shared entropy buffer
+	// bip39 beside the derivations: two goroutines on one shared entropy buffer, one on its own
 	ent := randBytes(g, entropySizes[id%5])
 	sentence, _ := refbip.MnemonicFromEntropy(ent)
 	grp.Entropy = hx(ent)
-	grp.Tasks = append(grp.Tasks, concTask{Op: "mnemonic", Want: hx([]byte(sentence))})
-	// a second sentence: valid or broken, decided by the reference
-	_, other := mutateMnemonic(g, randomValidMnemonic(g, []int{12, 15, 18, 21, 24}[g.Intn(5)]), 1+g.Intn(15))
-	if oe, oerr := refbip.EntropyFromMnemonic(other); oerr == nil {
-		grp.Tasks = append(grp.Tasks, concTask{Op: "entropy", Arg: other, Want: hx(oe)})
-	} else {
-		grp.Tasks = append(grp.Tasks, concTask{Op: "entropy", Arg: other, Want: "error"})
+	grp.Tasks = append(grp.Tasks, concTask{Op: "mnemonic", Want: hx([]byte(sentence))}, concTask{Op: "mnemonic", Index: 1, Want: hx([]byte(sentence))})
+	ent2 := randBytes(g, entropySizes[g.Intn(5)])
+	sentence2, _ := refbip.MnemonicFromEntropy(ent2)
+	grp.Tasks = append(grp.Tasks, concTask{Op: "mnemonic", Index: 2, Arg: hx(ent2), Want: hx([]byte(sentence2))})
+	// two more sentences: valid or broken, decided by the reference
+	for k := uint32(0); k < 2; k++ {
+		_, other := mutateMnemonic(g, randomValidMnemonic(g, []int{12, 15, 18, 21, 24}[g.Intn(5)]), g.Intn(16))
+		if oe, oerr := refbip.EntropyFromMnemonic(other); oerr == nil {
+			grp.Tasks = append(grp.Tasks, concTask{Op: "entropy", Index: k, Arg: other, Want: hx(oe)})
+		} else {
+			grp.Tasks = append(grp.Tasks, concTask{Op: "entropy", Index: k, Arg: other, Want: "error"})
+		}
 	}
-	pass := []string{"", "TREZOR", "correct horse"}[g.Intn(3)]
-	if sd, sok := refbip.Seed(sentence, pass); sok {
-		grp.Tasks = append(grp.Tasks, concTask{Op: "seed", Arg: sentence, Arg2: pass, Want: hx(sd)})
+	for k, sent := range []string{sentence, sentence2} {
+		pass := []string{"", "TREZOR", "correct horse"}[g.Intn(3)]
+		if sd, sok := refbip.Seed(sent, pass); sok {
+			grp.Tasks = append(grp.Tasks, concTask{Op: "seed", Index: uint32(k), Arg: sent, Arg2: pass, Want: hx(sd)})
+		}
 	}
-	// master key / path / bip44 coin from the shared seed buffer
-	coin := []uint32{0, 8000, 1}[g.Intn(3)]
-	if wc, e := m.Derive(refbip.BIP44Path(coin, 0, -1, -1)[:2]); e == nil {
-		grp.Tasks = append(grp.Tasks, concTask{Op: "master", Index: coin, Want: hx(m.Serialize82()) + hx(wp.Serialize82()) + hx(wc.Serialize82())})
-	} else {
-		ok = false
+	// master key / path / bip44 coin from the shared seed buffer, twice
+	for _, coin := range []uint32{8000, uint32(g.Intn(2))} {
+		if wc, e := m.Derive(refbip.BIP44Path(coin, 0, -1, -1)[:2]); e == nil {
+			grp.Tasks = append(grp.Tasks, concTask{Op: "master", Index: coin, Want: hx(m.Serialize82()) + hx(wp.Serialize82()) + hx(wc.Serialize82())})
+		} else {
+			ok = false
+		}
 	}
 	if !ok {
 		return nil
@@ -284,6 +292,10 @@ func runConcGroup(grp *concGroup, calls map[string]int64, mu *sync.Mutex) []conc
 			if t.Op == "seed" { // 2048 HMAC iterations per call
 				rounds = (rounds + 7) / 8
 			}
+			var own []byte
+			if t.Op == "mnemonic" && t.Arg != "" {
+				own = mustHex(t.Arg)
+			}
 			<-start
 			n := int64(0)
 			for round := 0; round < rounds; round++ {
@@ -305,9 +317,13 @@ func runConcGroup(grp *concGroup, calls map[string]int64, mu *sync.Mutex) []conc
 						got = append(append(got, pub.Fingerprint()...), pub.Identifier()...)
 					case "mnemonic":
 						var s string
-						if s, e = bip39.NewMnemonic(entBuf); e == nil {
+						eb := entBuf
+						if t.Arg != "" {
+							eb = own
+						}
+						if s, e = bip39.NewMnemonic(eb); e == nil {
 							var back []byte
-							if back, e = bip39.EntropyFromMnemonic(s); e == nil && !bytes.Equal(back, entBuf) {
+							if back, e = bip39.EntropyFromMnemonic(s); e == nil && !bytes.Equal(back, eb) {
 								s += " (entropy back: " + hx(back) + ")"
 							}
 							if e == nil {
